@@ -22,6 +22,8 @@ pub enum Op {
     MapParams(usize),
     /// registry.map_into_portable(the fields / variants of type_info())
     MapMembers(usize),
+    /// register_type with the failpoint set: a `type_info()` somewhere below panics, the caller catches the unwind and goes on
+    RegFault(usize),
 }
 
 impl Op {
@@ -32,6 +34,7 @@ impl Op {
             Op::MapType(i) => format!("map_into_portable([type_info::<{}>])", es[*i].text),
             Op::MapParams(i) => format!("map_into_portable(type_params of {})", es[*i].text),
             Op::MapMembers(i) => format!("map_into_portable(fields / variants of {})", es[*i].text),
+            Op::RegFault(i) => format!("register_type::<{}> with an injected panic in a member's type_info(), caught", es[*i].text),
         }
     }
 }
@@ -53,14 +56,19 @@ pub struct Exec {
     pub mapped: Vec<Option<Vec<Type<PortableForm>>>>,
     pub registry: Registry,
     pub hook_events: Vec<Vec<String>>,
+    /// hash of the registry's own `Debug` rendering after every op (C05 only)
+    pub debug_views: Vec<u64>,
 }
 
 /// Execute a history on a fresh registry. Snapshots after every op when `snaps` is set.
 pub fn execute(es: &[Entry], ops: &[Op], want_snaps: bool, rep: &mut Report, prop: &str) -> Result<Exec, String> {
     let mut reg = if ops.len() % 2 == 0 { Registry::new() } else { Registry::default() };
-    let mut ex = Exec { returned: vec![], snaps: vec![], mapped: vec![], registry: Registry::new(), hook_events: vec![] };
+    let mut ex = Exec { returned: vec![], snaps: vec![], mapped: vec![], registry: Registry::new(), hook_events: vec![], debug_views: vec![] };
     #[cfg(have_hooks)]
     let mut mon = HookMonitor::default();
+    // after an injected fault the registry legitimately holds reserved ids without a definition: the quiescent-point
+    // invariants (one definition per id) are not asserted from then on
+    let mut faulted = false;
     for (k, op) in ops.iter().enumerate() {
         #[cfg(have_hooks)]
         scale_info::verif::start();
@@ -85,6 +93,15 @@ pub fn execute(es: &[Entry], ops: &[Op], want_snaps: bool, rep: &mut Report, pro
                 hand::counting(true);
                 mapped = Some(reg.map_into_portable(vec![t]));
                 hand::counting(false);
+                vec![]
+            }
+            Op::RegFault(i) => {
+                let m = (es[*i].meta)();
+                hand::set_fault(true);
+                let r = guard(|| reg.register_type(&m).id);
+                hand::set_fault(false);
+                faulted = true;
+                rep.count(if r.is_err() { "registrations_aborted_by_injected_fault" } else { "fault_armed_but_not_reached" }, 1);
                 vec![]
             }
             Op::MapParams(i) => {
@@ -119,22 +136,29 @@ pub fn execute(es: &[Entry], ops: &[Op], want_snaps: bool, rep: &mut Report, pro
             if let Err(e) = mon.feed(&evs) {
                 return Err(format!("hook monitor after op {}: {}", k, e));
             }
-            if let Err(e) = reg.verif_invariants() {
-                return Err(format!("registry invariant after op {}: {}", k, e));
+            if !faulted {
+                if let Err(e) = reg.verif_invariants() {
+                    return Err(format!("registry invariant after op {}: {}", k, e));
+                }
+                rep.count("hook_invariant_checks", 1);
             }
-            rep.count("hook_invariant_checks", 1);
         }
-        let _ = (k, prop);
+        let _ = (k, prop, faulted);
         ex.returned.push(ids);
         ex.mapped.push(mapped);
         if want_snaps {
             ex.snaps.push(snapshot(&reg));
+            if prop == "C05" {
+                ex.debug_views.push(hash_bytes(format!("{:?}", reg).as_bytes()));
+            }
         }
     }
     #[cfg(have_hooks)]
     {
-        if let Err(e) = mon.quiescent() {
-            return Err(format!("hook monitor at the end: {}", e));
+        if !faulted {
+            if let Err(e) = mon.quiescent() {
+                return Err(format!("hook monitor at the end: {}", e));
+            }
         }
     }
     ex.registry = reg;
@@ -317,6 +341,7 @@ fn roots_of(es: &[Entry], ops: &[Op]) -> Vec<(MetaType, bool)> {
             Op::Reg(i) => out.push(((es[*i].meta)(), true)),
             Op::Batch(v) => out.extend(v.iter().map(|i| ((es[*i].meta)(), true))),
             Op::MapType(i) => out.push(((es[*i].meta)(), false)),
+            Op::RegFault(_) => {}
             Op::MapParams(i) => {
                 for p in (es[*i].meta)().type_info().type_params {
                     if let Some(m) = p.ty {
@@ -405,8 +430,16 @@ pub fn run(a: &Args) -> Report {
     total.count("corpus_entries_with_twins", (0..es.len()).filter(|i| twins_of(*i).is_some()).count() as u64);
     total.count("corpus_alias_classes_with_2plus", by_shallow.values().filter(|v| v.len() > 1).count() as u64);
 
+    let n_long: u64 = if thorough { 6 } else { 2 };
+    // entries whose registration reaches the failpoint, and entries made of the types around it
+    let faulty: Vec<usize> = es.iter().enumerate().filter(|(_, e)| e.text.contains("FaultyParent")).map(|(j, _)| j).collect();
+    let faulty_related: Vec<usize> = es.iter().enumerate().filter(|(_, e)| e.text.contains("Faulty") || e.text == "[i16; 7]" || e.text == "i16" || e.text == "i8" || e.text == "char").map(|(j, _)| j).collect();
     let body = run_parallel(&cfg, |i, rep| {
         let mut rng = Rng::derive(seed ^ 0x01, i);
+        if i >= es.len() as u64 && i < es.len() as u64 + n_long && !a.has("case-random") {
+            long_lived(&es, &mut rng, rep, &prop, i, seed);
+            return;
+        }
         // the first cases walk the whole corpus deterministically so that every entry is a root at least once
         let ops: Vec<Op> = if (i as usize) < es.len() && !a.has("case-random") {
             let j = i as usize;
@@ -419,7 +452,19 @@ pub fn run(a: &Args) -> Report {
             v.push(Op::Reg(j));
             v
         } else {
-            gen_history(&es, &by_shallow, &mut rng, prop == "C11" && i % 2 == 0)
+            let mut ops = gen_history(&es, &by_shallow, &mut rng, prop == "C11" && i % 2 == 0);
+            if prop == "C11" && i % 8 == 3 && !faulty.is_empty() {
+                // fault injection: a registration that fails half-way (caught by the caller) in the middle of the history,
+                // with the types involved also registered normally before or after it
+                let mut side = rng.clone();
+                let at = side.below(ops.len() + 1);
+                ops.insert(at, Op::RegFault(*side.pick(&faulty)));
+                for _ in 0..side.range(1, 3) {
+                    let at = side.below(ops.len() + 1);
+                    ops.insert(at, Op::Reg(*side.pick(&faulty_related)));
+                }
+            }
+            ops
         };
         let trace: Vec<String> = ops.iter().map(|o| o.show(&es)).collect();
         let case = || json!({"case": i, "seed": seed, "history": trace});
@@ -474,6 +519,7 @@ pub fn run(a: &Args) -> Report {
                 Op::MapType(_) => "op_map_into_portable_type",
                 Op::MapParams(_) => "op_map_into_portable_params",
                 Op::MapMembers(_) => "op_map_into_portable_members",
+                Op::RegFault(_) => "op_register_type_with_injected_fault",
             }, 1);
         }
         for (_, t) in &last {
@@ -619,6 +665,22 @@ pub fn run(a: &Args) -> Report {
                                 return;
                             }
                             rep.count("reregistrations_checked", 1);
+                            // ... and nothing else a user can observe of the registry value: its Debug rendering and `==`
+                            if ex.debug_views[k] != ex.debug_views[k - 1] {
+                                rep.violation("C05/reregistration-changes-registry", format!("op {} registers a type that is already present: the listing is unchanged but the registry's `{{:?}}` rendering differs before and after", k), case());
+                                return;
+                            }
+                            rep.count("reregistration_debug_views_compared", 1);
+                            if k + 1 == ops.len() || rng.chance(1, 6) {
+                                let two = guard(|| (execute(&es, &ops[..k], false, rep, "C05x"), execute(&es, &ops[..=k], false, rep, "C05x")));
+                                if let Ok((Ok(a), Ok(b))) = two {
+                                    if a.registry != b.registry {
+                                        rep.violation("C05/reregistration-changes-registry", format!("the registry built by ops 0..{} and the one built by ops 0..={} (op {} registers a type already present) list the same entries but compare unequal with `==`", k, k, k), case());
+                                        return;
+                                    }
+                                    rep.count("reregistration_eq_compared", 1);
+                                }
+                            }
                         }
                         let _ = m;
                     }
@@ -701,6 +763,33 @@ pub fn run(a: &Args) -> Report {
                                 return;
                             }
                         }
+                        // the run-time builder, fed the same definitions, keeps one entry per distinct definition as well
+                        // (definitions with equal path and parameters but different bodies, e.g. const-generic instantiations, stay apart)
+                        let rebuilt = guard(|| {
+                            let mut b = scale_info::PortableRegistryBuilder::new();
+                            let ids: Vec<u32> = frozen.types.iter().map(|t| b.register_type(t.ty.clone())).collect();
+                            (b.finish(), ids)
+                        });
+                        match rebuilt {
+                            Ok((r, ids)) => {
+                                let mut distinct: Vec<&Type<PortableForm>> = Vec::new();
+                                for (t, id) in frozen.types.iter().zip(&ids) {
+                                    let first = distinct.iter().position(|x| **x == t.ty).unwrap_or_else(|| {
+                                        distinct.push(&t.ty);
+                                        distinct.len() - 1
+                                    });
+                                    if first as u32 != *id || r.types.get(first).map(|x| &x.ty) != Some(&t.ty) {
+                                        rep.violation("C05/distinct-types-merged", format!("fed to a PortableRegistryBuilder, entry {} (path {:?}) received id {} which holds another definition (it is distinct definition number {})", t.id, t.ty.path.segments, id, first), case());
+                                        return;
+                                    }
+                                }
+                                rep.count("definitions_reinterned_by_builder", frozen.types.len() as u64);
+                            }
+                            Err(p) => {
+                                rep.violation("C05/registration-panic", format!("re-interning the registry's definitions in a PortableRegistryBuilder panicked: {}", p), case());
+                                return;
+                            }
+                        }
                         rep.count("frozen_registries_checked", 1);
                     }
                     Err(p) => {
@@ -732,6 +821,11 @@ pub fn run(a: &Args) -> Report {
                     for id in ids {
                         let then = ex.snaps[k].iter().find(|(i, _)| i == id).map(|(_, t)| type_hash(t));
                         let now = last.iter().find(|(i, _)| i == id).map(|(_, t)| type_hash(t));
+                        if then.is_none() && now.is_none() && ops.iter().any(|o| matches!(o, Op::RegFault(_))) {
+                            // an id reserved by the aborted registration, handed out again without a definition: not asserted either way
+                            rep.count("ids_without_definition_after_injected_fault", 1);
+                            continue;
+                        }
                         if then.is_none() || then != now {
                             rep.violation("C11/id-unstable", format!("id {} returned by op {} resolves differently at the end", id, k), case());
                             return;
@@ -822,6 +916,98 @@ pub fn run(a: &Args) -> Report {
     });
     total.merge(body);
     total
+}
+
+/// One registry that stays in use for many thousands of registrations (every corpus entry, several passes, shuffled):
+/// whatever a registry carries from call to call must not change ids, entries or well-formedness however long it lives.
+fn long_lived(es: &[Entry], rng: &mut Rng, rep: &mut Report, prop: &str, i: u64, seed: u64) {
+    let mut order: Vec<usize> = (0..es.len()).collect();
+    rng.shuffle(&mut order);
+    let case = |what: String| json!({"case": i, "seed": seed, "long_lived": true, "at": what});
+    let mut reg = Registry::new();
+    let mut first: Vec<u32> = Vec::with_capacity(order.len());
+    let mut regs = 0u64;
+    let mut len_after_first = 0usize;
+    for pass in 0..4 {
+        for (k, j) in order.iter().enumerate() {
+            let m = (es[*j].meta)();
+            let id = match guard(|| reg.register_type(&m).id) {
+                Ok(id) => id,
+                Err(p) => {
+                    rep.violation(&format!("{}/registration-panic", prop), format!("a registry in use for {} registrations panicked on `{}` (pass {}): {}", regs, es[*j].text, pass, p), case(format!("registration {}", regs)));
+                    return;
+                }
+            };
+            regs += 1;
+            if pass == 0 {
+                first.push(id);
+            } else if first[k] != id {
+                let key = if prop == "C11" { "C11/id-unstable" } else if prop == "C05" { "C05/same-type-two-ids" } else if prop == "C01" { "C01/registry-not-dense" } else { "C02/root-id" };
+                rep.violation(key, format!("`{}` had id {} and has id {} after {} registrations in the same registry", es[*j].text, first[k], id, regs), case(format!("registration {}", regs)));
+                return;
+            }
+        }
+        let n = reg.types().count();
+        if pass == 0 {
+            len_after_first = n;
+        } else if n != len_after_first {
+            let key = if prop == "C05" { "C05/reregistration-changes-registry" } else if prop == "C11" { "C11/earlier-state-not-a-prefix" } else if prop == "C01" { "C01/registry-not-dense" } else { "C02/definition" };
+            rep.violation(key, format!("registering the same {} types again turned {} entries into {}", order.len(), len_after_first, n), case(format!("pass {}", pass)));
+            return;
+        }
+    }
+    rep.count("long_lived_registries", 1);
+    rep.count("long_lived_registrations", regs);
+    rep.eval(None);
+    let frozen: PortableRegistry = match guard(|| PortableRegistry::from(reg)) {
+        Ok(r) => r,
+        Err(p) => {
+            rep.violation(&format!("{}/registration-panic", prop), format!("freezing a long-lived registry panicked: {}", p), case("freeze".into()));
+            return;
+        }
+    };
+    match prop {
+        "C01" => {
+            if let Err(e) = wf::check(&frozen, true) {
+                rep.violation(if e.contains("mentions") { "C01/frozen-not-closed" } else { "C01/frozen-not-dense" }, e, case("frozen".into()));
+            }
+        }
+        "C02" => {
+            let mut bs = Bisim::default();
+            for _ in 0..60 {
+                let k = rng.below(order.len());
+                let m = (es[order[k]].meta)();
+                if let Err(e) = bs.conforms(&m, first[k], &frozen, 0) {
+                    rep.violation(&format!("C02/{}", classify_bisim(&e)), format!("`{}` (id {}) in a long-lived registry: {}", es[order[k]].text, first[k], e), case("bisimulation".into()));
+                    return;
+                }
+                rep.count("roots_checked", 1);
+            }
+        }
+        "C05" => {
+            let roots: Vec<(MetaType, bool)> = order.iter().map(|j| ((es[*j].meta)(), true)).collect();
+            let want = bisim::reachable(&roots);
+            if want.len() != frozen.types.len() {
+                rep.violation("C05/entry-count", format!("a long-lived registry has {} entries but {} distinct type identities are reachable from what was registered", frozen.types.len(), want.len()), case("entry count".into()));
+            }
+        }
+        _ => {
+            // C11: the same shuffled order replayed into a fresh registry gives the same bytes
+            let mut r2 = Registry::new();
+            let ok = guard(|| {
+                for j in &order {
+                    r2.register_type(&(es[*j].meta)());
+                }
+            });
+            if ok.is_ok() {
+                let f2: PortableRegistry = r2.into();
+                if refcodec::encode(&f2) != refcodec::encode(&frozen) {
+                    rep.violation("C11/replay-differs", "one pass over the corpus and four passes over it (same order) give different registries".into(), case("replay".into()));
+                }
+                rep.count("replays_compared", 1);
+            }
+        }
+    }
 }
 
 /// Digest of the registries produced by the first `cases` histories (single thread, fixed order):
